@@ -60,7 +60,10 @@ func (o *Opt) BaseN() int {
 
 // Name is how messages refer to the option: -s, --long or "-s, --long".
 func (o *Opt) Marker() string {
-	if o.Long != "" {
+	switch {
+	case o.Long != "" && o.Short != "":
+		return "-" + o.Short + ", --" + o.LongNS // as the library renders an option with both names
+	case o.Long != "":
 		return "--" + o.LongNS
 	}
 	return "-" + o.Short
